@@ -1,8 +1,8 @@
 (* The control skeletons, call shapes and pass-through facts of the driver code that the hand-written state machine
-   (AGP/Impl.v) and the driver model were written against. RECORDED BY HAND (copied once from the generated
-   gen/SourceFacts.v of the tree the model was validated on): each lemma compares the skeleton regenerated from the
-   current source with the recorded one. A refactoring of one of these methods re-opens the lemma, and the lock-step
-   correspondence then decides whether behaviour changed. *)
+   (AGP/Impl.v) and the driver model were written against. RECORDED BY HAND (copied from the generated
+   gen/SourceFacts.v of the tree the model was validated on, tools/record_skeleton.py): each lemma compares the skeleton
+   regenerated from the current source with the recorded one. A refactoring of one of these methods re-opens the lemma,
+   and the lock-step correspondence then decides whether behaviour changed. *)
 From Coq Require Import String List Bool.
 From IOptV Require Import gen.SourceFacts.
 Import ListNotations.
@@ -80,7 +80,7 @@ Lemma sk_Method_CalculateM_ok : sk_Method_CalculateM = expected_sk_Method_Calcul
 Definition expected_sk_Method_RenewSearchData : list string := ["oldpoint.delta = Method.CalculateDelta(newpoint.GetX(), oldpoint.GetX(), self.dimension)"; "newpoint.delta = Method.CalculateDelta(oldpoint.GetLeft().GetX(), newpoint.GetX(), self.dimension)"; "self.CalculateM(newpoint, oldpoint.GetLeft())"; "self.CalculateM(oldpoint, newpoint)"; "self.CalculateGlobalR(newpoint, oldpoint.GetLeft())"; "self.CalculateGlobalR(oldpoint, newpoint)"; "self.searchData.InsertDataItem(newpoint, oldpoint)"].
 Lemma sk_Method_RenewSearchData_ok : sk_Method_RenewSearchData = expected_sk_Method_RenewSearchData. Proof. reflexivity. Qed.
 
-Definition expected_sk_Method_UpdateOptimum : list string := ["if self.best is None or self.best.GetIndex() < point.GetIndex():"; "  self.best = point"; "  self.recalc = True"; "  self.Z[point.GetIndex()] = point.GetZ()"; "else:"; "  if self.best.GetIndex() == point.GetIndex() and point.GetZ() < self.best.GetZ():"; "    self.best = point"; "    self.recalc = True"; "    self.Z[point.GetIndex()] = point.GetZ()"; "self.searchData.solution.bestTrials[0] = self.best"].
+Definition expected_sk_Method_UpdateOptimum : list string := ["if self.best is None or self.best.GetIndex() < point.GetIndex():"; "  self.best = point"; "  self.recalc = True"; "  self.Z[point.GetIndex()] = point.GetZ()"; "else:"; "  if self.best.GetIndex() == point.GetIndex() and point.GetZ() < self.best.GetZ():"; "    self.best = point"; "    self.recalc = True"; "    self.Z[point.GetIndex()] = point.GetZ()"; "current = self.searchData.solution.bestTrials[0]"; "if current is self.best or len(current.functionValues) == 0 or self.best.GetZ() <= current.functionValues[0].value:"; "  self.searchData.solution.bestTrials[0] = self.best"].
 Lemma sk_Method_UpdateOptimum_ok : sk_Method_UpdateOptimum = expected_sk_Method_UpdateOptimum. Proof. reflexivity. Qed.
 
 Definition expected_sk_Method_FinalizeIteration : list string := ["self.iterationsCount += 1"].
